@@ -114,19 +114,25 @@ def runtime_half(ctx, drv, accepted):
             # BATCH_MATMUL: the weight's channel axis depends on adj_y, so both orientations of a constant right-hand side are built;
             # operators whose channel axis is not 0 (DEPTHWISE_CONV_2D, BATCH_MATMUL) also get the config spelt with STRINGS, as a recipe
             # file / from_dict delivers it (the granularity and dtype are str-valued enums: equal to, not identical with, their members)
-            variants = [(None, True)]
+            # operators with a bias and per-output-channel weights additionally get a weight with a (nearly) DEAD output channel next to an
+            # ordinary bias (pruned channels): the channel's scale sits on the range floor and the bias must still fit its integer type
+            variants = [(None, True, gm.BENIGN_KINDS)]
             if o == "BATCH_MATMUL":
-                variants = [((False, True), True), ((True, True), False)]
+                variants = [((False, True), True, gm.BENIGN_KINDS), ((True, True), False, gm.BENIGN_KINDS)]
             elif o == "DEPTHWISE_CONV_2D":
-                variants = [(None, True), (None, False)]
+                variants = [(None, True, gm.BENIGN_KINDS), (None, False, gm.BENIGN_KINDS)]
+            elif o in ("FULLY_CONNECTED", "CONV_2D", "CONV_2D_TRANSPOSE") and d.get("act") is not None:
+                variants = [(None, True, gm.BENIGN_KINDS), (None, True, ["deadrow"])]
             for rep in range(reps * len(variants)):
-                bmm_force, use_enum = variants[rep % len(variants)]
+                bmm_force, use_enum, const_kinds = variants[rep % len(variants)]
+                if const_kinds != gm.BENIGN_KINDS:
+                    ctx.tag("runtime_dead_channel_weights")
                 if ctx.left() < 25:
                     ctx.extra["runtime_truncated_at"] = n
                     return
                 kinds = [o] if o in gm.Grower.SUPPORTED else [ctx.rng.choice(["FULLY_CONNECTED", "TANH", "ADD"])]
                 for _try in range(20):   # the random graph inputs must have a rank the operator template accepts
-                    mb, info = gm.gen_model(ctx.rng, n_ops=1, n_subgraphs=1, kinds=kinds, p_unsupported=0.0, const_kinds=gm.BENIGN_KINDS, alias_sig=0.0,
+                    mb, info = gm.gen_model(ctx.rng, n_ops=1, n_subgraphs=1, kinds=kinds, p_unsupported=0.0, const_kinds=const_kinds, alias_sig=0.0,
                                             allow_dead=0.0, bmm_force=bmm_force)
                     if o in info["subgraphs"][0]["ops"] or o not in gm.Grower.SUPPORTED:
                         break
